@@ -1,6 +1,8 @@
 /-
 Props/C19.lean — show() draws each object where it is (placement and unit parts).
-Proved: `place_and_orient_model3d` maps every model vertex `v` to `(R·v·scale + p)·f`, i.e. the
+(Audit: the placement theorems are about the function `place` defined BELOW in this file — the formula `(R·v·scale + p)·f` read off
+`place_and_orient_model3d`; it is not a Model/ function, the driver does not run it and no stream ties it to the real function: display
+oracle only.)  For that formula: it maps every model vertex `v` to `(R·v·scale + p)·f`, i.e. the
 object's pose at the displayed path index followed by the announced unit factor, and a local
 vertex on the body's surface lands on the posed surface; the unit factor table regenerated from
 `_UNIT_PREFIX`/`get_unit_factor` satisfies factor · 10^power = 1 for every prefix.
@@ -478,7 +480,7 @@ example : tetraDet ((0, 0, 0), (1, 0, 0), (0, 0, 1), (0, 1, 0)) = -1 := by decid
 
 /-! ## Index structure of `make_Prism` (Cylinder graphic, base = 50) and `make_Pyramid` (arrow heads)
 
-Vertex coordinates use sin / cos and are not modelled; the `i, j, k` arrays are.  `succMod N q` is
+Vertex coordinates use sin / cos (modelled separately in Model/DisplayTrig.lean, theorems further down); here the `i, j, k` arrays.  `succMod N q` is
 `(q+1) mod N`.  Prism vertex rows: bottom ring `0..N-1`, top ring `N..2N-1`, bottom centre `2N`, top
 centre `2N+1`.  Pyramid vertex rows: base ring `0..N-1`, tip `N`. -/
 
@@ -701,4 +703,29 @@ theorem polyline_trace_is_vertices {β : Type} (verts : List (V3 β)) :
 open MagpyVerif.DisplayTrig in
 example : polylineTrace [(⟨1, 2, 3⟩ : V3 Int), ⟨4, 5, 6⟩] = ([1, 4], [2, 5], [3, 6]) := by decide
 
+end MagpyVerif.C19
+
+/-! ### added by the audit: non-vacuity examples (a concrete carrier for the abstract `place` theorems; instances of the
+vertex theorems that had none) -/
+
+namespace MagpyVerif.C19
+open MagpyVerif.DisplayTrig
+
+-- non-vacuity of the algebraic context of `place_*`: invertible linear maps of ℝ³ acting on ℝ³, unit factor in ℝ
+example (R : (Fin 3 → ℝ) ≃ₗ[ℝ] (Fin 3 → ℝ)) (p v : Fin 3 → ℝ) (f : ℝ) (hf : f ≠ 0) :
+    R⁻¹ • (f⁻¹ • place R p (1 : ℝ) f v - p) = v := place_inverse R p v f hf
+-- a concrete instance: ℚˣ acting on ℚ
+example : place (Units.mk0 (2 : ℚ) (by norm_num)) (3 : ℚ) (1 : ℚ) (1000 : ℚ) (5 : ℚ) = 13000 := by norm_num [place, Units.smul_def]
+
+-- ellipsoid: the hypotheses hold and the vertex list is non-empty (Sphere of diameter 2, vert = 4: 10 vertices, all on the unit sphere)
+example : (ellipsoidVerts 4 (2 : ℝ) 2 2).length = 10 :=
+  (ellipsoid_vertices_on_surface 4 2 2 2 (by norm_num) (by norm_num) (by norm_num)).2 (by norm_num)
+example : (ellipsoidVerts 4 (2 : ℝ) 2 2).head? = some ⟨0, 0, -(2 / 2)⟩ := (ellipsoid_poles 4 2 2 2 (by norm_num)).1
+
+-- cylinder segment: phi1 ≤ phi2 is satisfiable and a corner is a vertex (r = 2, φ = 90, top plane)
+example : (⟨2 * Real.cos (90 * (Real.pi / 180)), 2 * Real.sin (90 * (Real.pi / 180)), 3 / 2⟩ : V3 ℝ) ∈ segVerts 50 1 2 3 0 90 :=
+  (cylinder_segment_vertices_on_surface 50 1 2 3 0 90 (by norm_num)).2.2 2 90 (3 / 2) (Or.inr rfl) (Or.inr rfl) (Or.inl rfl)
+
+-- prism: square prism, vertex 2 of the bottom ring is opposite vertex 0
+example : (prismVerts 4 (2 : ℝ) 6)[4 / 2]? = some ⟨-(2 / 2), 0, -(6 / 2)⟩ := (prism_spans_extent 4 (by norm_num) 2 6).2.2.2 (by norm_num)
 end MagpyVerif.C19
